@@ -495,7 +495,7 @@ def run(chk):
         "(directory header run limits incl. the exact 256-entry bound, id count, name length, device number, timestamps) "
         "or a reasoned exception; K13-padding: pad length is a remainder by cfg->devblksize; K1-metablock: 8 KiB limit "
         "and uncompressed fallback. Sortedness, dense inode numbering and reference resolution are "
-        "not decided; of index placement only K11-indexpos (the block recorded for a directory index is queried before its header is appended). K13-truncate and K11-everyblock (shared with C08) decide two layout-consistency conditions of the block writer.")
+        "not decided; of index placement only K11-indexpos (the block recorded for a directory index is queried before its header is appended). K13-truncate and K11-everyblock (shared with C08) decide two layout-consistency conditions of the block writer. 'Directory listings are strictly sorted': K2-sorted (siblings are linked into the tree at a position chosen by strcmp of the names, whatever order entries arrive in) and K2-exact (a length-limited name comparison also checks that the name ends there).")
     chk.assumptions = ["superblock commit order and bytes_used are decided by the C14 check"]
     prog = load_program("gensquashfs")
     rule_compressor_contract(chk, prog)
@@ -519,6 +519,11 @@ def run(chk):
     rule_sorted_tree(chk, load_program("gensquashfs"))
     rule_exact_lookup(chk, load_program("gensquashfs"))
     chk.floor("K2-sorted", 1)
+    # the metadata writer's block buffer and its fill level (a writer-side buffer bound: what runs over the 8 KiB block
+    # lands in the writer's own bookkeeping and is then written out as metadata)
+    from ..slack import run_fill
+    run_fill(chk, load_program("gensquashfs"), only_structs={"struct.sqfs_meta_writer_t"})
+    chk.floor("K6-fill", 3)
     chk.floor("K2-exact", 1)
     from .c08 import rule_g_truncate, rule_i_every_block, rule_j_logged
     rule_g_truncate(chk, load_program("gensquashfs"))
